@@ -16,6 +16,29 @@ NEG = [("MC_SioSystem_negctl_firedrops.cfg", "StoreIsLive", "pre-repair report o
        ("MC_SioSystem_relock_crash.cfg", "RelockScheduledNoDirect", "a fired timer's message waiting in the input queue is lost by a crash")]
 
 
+DEVIATION_CFGS = ["%s.cfg", "%s_TRUE_replace.cfg", "%s_FALSE_cancel.cfg", "%s_FALSE_replace.cfg"]
+
+
+def judge_any(pid, name, module, cases, extra_files):
+    """The named deviations Wedge and MakeOnPending are what the code does today, not something a property demands: a run is
+    rejected only if it is a behaviour of the model under NO combination of them (so repairing either deviation in the code
+    raises no alarm).  FireDropsBs (sio) and EmitOnFailedWrite (mcrew) are defects and are not admitted."""
+    base = module[:-4]
+    first = None
+    rejected = None
+    for i, pat in enumerate(DEVIATION_CFGS):
+        jd = vlib.fresh_dir(pid, "%s_%d" % (name, i))
+        bad, stats, t = vlib.judge_cases(jd, module, pat % base, cases, extra_files=extra_files)
+        ids = {b["case"]["id"] for b in bad}
+        if first is None:
+            first = (bad, stats, t)
+        rejected = ids if rejected is None else (rejected & ids)
+        if not rejected:
+            break
+    bad, stats, t = first
+    return [b for b in bad if b["case"]["id"] in rejected], stats, t
+
+
 def stage(pid, tier, seed, wd, rep):
     drv = vlib.build_driver("sysdrv", wd)
     cfgfile = os.path.join(wd, "sysconfig.ndjson")
@@ -109,8 +132,7 @@ def stage(pid, tier, seed, wd, rep):
             c = json.loads(line)
             c["id"] = k
             f.write(json.dumps(c) + "\n")
-    jd = vlib.fresh_dir(pid, "judge_system")
-    bad, stats, t = vlib.judge_cases(jd, "Trace_System.tla", "Trace_System.cfg", out, extra_files=[cfgfile])
+    bad, stats, t = judge_any(pid, "judge_system", "Trace_System.tla", out, [cfgfile])
     TIMEOUTS = {"goroutine-never-waited", "goroutine-stuck", "emitted-nothing"}
     for b in bad:
         c = b["case"]
@@ -171,8 +193,7 @@ def stdio_stage(pid, tier, seed, wd, drv, rep, acts=None):
                     c = json.loads(line)
                     c["id"] = k
                     f.write(json.dumps(c) + "\n")
-    jd = vlib.fresh_dir(pid, "judge_system_io")
-    bad, stats, t = vlib.judge_cases(jd, "Trace_SystemIO.tla", "Trace_SystemIO.cfg", out, extra_files=[cfgfile])
+    bad, stats, t = judge_any(pid, "judge_system_io", "Trace_SystemIO.tla", out, [cfgfile])
     for b in bad:
         c = b["case"]
         acts2 = json.loads(c["raw"])["acts"]
@@ -190,8 +211,7 @@ def replay_one(pid, wd, drv, cfgfile, acts, tag):
     open(bfile, "w").write(json.dumps({"acts": acts}) + "\n")
     out = os.path.join(wd, "o_%s.ndjson" % tag)
     vlib.run([drv, "replay", bfile, out], timeout=600)
-    jd = vlib.fresh_dir(pid, "judge_" + tag)
-    bad, stats, t = vlib.judge_cases(jd, "Trace_System.tla", "Trace_System.cfg", out, extra_files=[cfgfile])
+    bad, stats, t = judge_any(pid, "judge_" + tag, "Trace_System.tla", out, [cfgfile])
     if not bad:
         return []
     c = bad[0]["case"]
@@ -208,8 +228,7 @@ def replay(pid, wd, rep, payload):
     open(bfile, "w").write(json.dumps({"acts": payload["acts"]}) + "\n")
     out = os.path.join(wd, "system_runs.ndjson")
     vlib.run([drv, "replay", bfile, out], timeout=600)
-    jd = vlib.fresh_dir(pid, "judge_system")
-    bad, stats, t = vlib.judge_cases(jd, "Trace_System.tla", "Trace_System.cfg", out, extra_files=[cfgfile])
+    bad, stats, t = judge_any(pid, "judge_system", "Trace_System.tla", out, [cfgfile])
     for b in bad:
         rep.reject("sio crew leaves the system model (%s) at step %s" % (",".join(sorted(b["system"])), b.get("at")), [],
                    {"property": pid, "kind": "system", "labels": sorted(b["system"]), "at": b.get("at"), "acts": payload["acts"]})
